@@ -1,1 +1,56 @@
-fn main() {}
+//! Harness for C31 (property cache), C32 (owner tracking of signal streams), C36 (name bookkeeping):
+//! replays TLC-generated histories against the real zbus client over a fake bus (see fakebus.rs) on one
+//! thread, deterministically, and writes one observation line per case.  It only records.
+mod c31;
+mod c32;
+mod c36;
+mod fakebus;
+mod probe;
+mod sched;
+
+use std::io::{BufRead, BufWriter, Write};
+
+use serde_json::{json, Value as J};
+
+fn run_file(f: fn(&J) -> J, cases: &str, out: &str) {
+    let rd = std::io::BufReader::new(std::fs::File::open(cases).expect("open cases"));
+    let mut w = BufWriter::new(std::fs::File::create(out).expect("create out"));
+    // a panic inside the code under test is an observation, not a harness failure
+    std::panic::set_hook(Box::new(|_| {}));
+    for line in rd.lines() {
+        let line = line.unwrap();
+        if line.trim().is_empty() {
+            continue;
+        }
+        let case: J = serde_json::from_str(&line).expect("case json");
+        let r = std::panic::catch_unwind(std::panic::AssertUnwindSafe(|| f(&case)));
+        let obs = match r {
+            Ok(o) => o,
+            Err(p) => {
+                let msg = p
+                    .downcast_ref::<String>()
+                    .cloned()
+                    .or_else(|| p.downcast_ref::<&str>().map(|s| s.to_string()))
+                    .unwrap_or_default();
+                json!({"ev":"Panic","id":case["id"],"case":case,"msg":msg})
+            }
+        };
+        writeln!(w, "{}", obs).unwrap();
+    }
+    w.flush().unwrap();
+}
+
+fn main() {
+    let args: Vec<String> = std::env::args().collect();
+    let a = |i: usize| args.get(i).map(|s| s.as_str()).unwrap_or("");
+    match a(1) {
+        "probe" => probe::run(),
+        "c31" => run_file(c31::run_case, a(2), a(3)),
+        "c32" => run_file(c32::run_case, a(2), a(3)),
+        "c36" => run_file(c36::run_case, a(2), a(3)),
+        _ => {
+            eprintln!("usage: proxy c31|c32|c36 <cases.ndjson> <obs.ndjson>");
+            std::process::exit(2);
+        }
+    }
+}
